@@ -113,7 +113,8 @@ def M6.weakRet (m : M6) : Op → Res → M6
   | .resetAll _, _ => m
   | .setContext c _, _ => { m with hasCtx := c.isSome }
   | .addKeyRef k, .ref r _ _ =>
-    { m.setSt k .any with live := setAt m.live r (some k), liveDef := setAt m.liveDef r (some k),
+    -- an overlapping `RemoveKey` may have released the reference already: it is not certainly unreleased
+    { m.setSt k .any with live := setAt m.live r (some k), liveDef := setAt m.liveDef r none,
                           unsureK := k :: m.unsureK }
   | .release r, _ =>
     match m.live[r]? with
@@ -296,6 +297,8 @@ structure M7 where
   maybeGone : List Nat := []
   /-- per key: data of the last constructor line seen -/
   lastD : List (Nat × Nat) := []
+  /-- keys whose reference table is uncertain (an `AddKeyRef` / `RemoveKey` on them overlapped another call) -/
+  unsureK : List Nat := []
 deriving Repr
 
 def genOf (m : M7) (k d : Nat) : Nat :=
@@ -355,14 +358,17 @@ def M7.inv (m : M7) : Op → M7
 def M7.ret (m : M7) : Op → Res → M7
   | .removeKey k, .bool true => m.dismiss k
   | .rcRemoveKey k, .bool b =>
-    let m := { m with live := m.live.map fun x => if x == some k then none else x }
+    let m := { m with live := m.live.map (fun x => if x == some k then none else x),
+                      unsureK := m.unsureK.filter (· != k) }
     if b then m.dismiss k else m
   | .addKeyRef k, _ => { m with live := m.live ++ [some k] }
   | .release r, _ =>
     match m.live[r]? with
     | some (some k) =>
       let m := { m with live := m.live.set r none }
-      if m.live.countP (· == some k) == 0 then m.dismiss k else m
+      -- with an uncertain reference table it is not known whether this was the last reference
+      if m.unsureK.contains k then m.gone k
+      else if m.live.countP (· == some k) == 0 then m.dismiss k else m
     | _ => m
   | .syncKeys _ _, .sync _ rm => rm.foldl (fun m k => m.dismiss k) m
   | .setContext none _, _ =>
@@ -380,8 +386,8 @@ def M7.ret (m : M7) : Op → Res → M7
 concluded about removal -/
 def M7.weakRet (m : M7) : Op → Res → M7
   | .removeKey k, _ => m.gone k
-  | .rcRemoveKey k, _ => { m.gone k with live := m.live.map fun x => if x == some k then none else x }
-  | .addKeyRef k, .ref r _ _ => { m with live := setAt m.live r (some k) }
+  | .rcRemoveKey k, _ => { m.gone k with unsureK := k :: m.unsureK }
+  | .addKeyRef k, .ref r _ _ => { m with live := setAt m.live r (some k), unsureK := k :: m.unsureK }
   | .release r, _ =>
     match m.live[r]? with
     | some (some k) => { m.gone k with live := m.live.set r none }
